@@ -103,6 +103,8 @@ def run_harness(out, cases_path, part, sd, tier):
         if not wd and rc != 124 and "Test killed" not in gout:
             return rc, gout, stuck
         reap(part)
+        if os.path.exists(part):
+            os.remove(part)
         log = os.path.join(out, "stuck-seed%d-attempt%d.log" % (sd, attempt))
         with open(log, "w") as fh:
             fh.write(gout)
